@@ -21,6 +21,7 @@ mod c10;
 mod cli;
 mod clicheck;
 mod c17;
+mod c20;
 mod progs;
 mod asm;
 mod machine;
@@ -65,6 +66,7 @@ fn main() {
         "C09" => "C09",
         "C10" => "C10",
         "C17" => "C17",
+        "C20" => "C20",
         _ => usage(),
     };
     let ctx = Ctx::new(prop, tier, seed);
@@ -80,6 +82,7 @@ fn main() {
         "C09" => c09::run(&ctx),
         "C10" => c10::run(&ctx),
         "C17" => c17::run(&ctx),
+        "C20" => c20::run(&ctx),
         _ => unreachable!(),
     }
     std::process::exit(ctx.finish());
